@@ -8,7 +8,8 @@
    with buffers of the given sizes, reached io.EOF and received o in total. *)
 From ReqV Require Import Lib.Bytes Model.Charset Model.CharsetFind Proofs.CharsetProofs Proofs.CharsetTermination
      Proofs.CharsetFindProofs Proofs.CharsetPinned Proofs.CharsetToyStream Proofs.CharsetInterleave
-     Model.CharsetConfig Proofs.CharsetConfigProofs Proofs.CharsetConfigPins Gen.DecodeSetters.
+     Model.CharsetConfig Proofs.CharsetConfigProofs Proofs.CharsetConfigPins Gen.DecodeSetters
+     Proofs.CharsetLabels Gen.WhatwgLabels.
 
 (* for every body, every split into network reads, every sequence of caller buffer sizes and every
    hand-out schedule of the x/text reader: the delivered body is the original bytes or the
@@ -437,6 +438,28 @@ Theorem C15_decode_guards_pinned :
     sites = bs "transport.go:readLoop:2; internal/http2/transport.go:handleResponse:2; internal/http3/http_stream.go:ReadResponse:2".
 Proof. exact decode_guards_pinned. Qed.
 Print Assumptions C15_decode_guards_pinned.
+
+(* Over the COMPLETE table of WHATWG encoding labels (228, regenerated from x/text htmlindex): the
+   "already UTF-8, leave it" short-cut on the Content-Type charset fires exactly for the labels of UTF-8,
+   however the label is cased - not for unicode / unicodefeff / unicodefffe / csunicode (UTF-16) *)
+Theorem C15_utf8_shortcut_exactly_for_utf8_labels :
+  forall l id, In (l, id) whatwg_labels ->
+    (is_utf8_label l = true <-> id = bs "utf8") /\
+    (is_utf8_label (to_lower (to_upper l)) = true <-> id = bs "utf8").
+Proof. exact utf8_shortcut_exactly_for_utf8_labels. Qed.
+Print Assumptions C15_utf8_shortcut_exactly_for_utf8_labels.
+
+Theorem C15_utf16_labels_in_the_table :
+  In (bs "unicode", bs "utf16le") whatwg_labels /\ In (bs "unicodefeff", bs "utf16le") whatwg_labels /\
+  In (bs "unicodefffe", bs "utf16be") whatwg_labels /\ In (bs "csunicode", bs "utf16le") whatwg_labels.
+Proof. exact utf16_labels_present. Qed.
+Print Assumptions C15_utf16_labels_in_the_table.
+
+Theorem C15_utf8_test_pinned :
+  In (bs "autoDecodeResponseBody:utf8-test",
+      bs "strings.Contains(charset, ""utf-8"") || strings.Contains(charset, ""utf8"")") decode_setters.
+Proof. exact utf8_test_pinned. Qed.
+Print Assumptions C15_utf8_test_pinned.
 
 (* The pinned (pre-fix) peekRead violates two_results_only in three ways; witnesses kept checked
    (toy two-byte charset so that they are closed and computable). *)
